@@ -419,6 +419,10 @@ def _perturb(pt, eps):
             ps = mod.get_optimization_parameters()
             for p_ in ([ps] if isinstance(ps, torch.Tensor) else list(ps)):
                 p_.mul_(1.0 + eps)
+                # parameters that are exactly zero (a 'potential' object before its first update,
+                # zero descan shifts) are not moved by a relative perturbation: add an absolute one
+                # of the same order relative to a unit scale
+                p_.add_(eps * max(float(p_.abs().max()), 1e-2))
 
 
 def _noise_scale(plan, upto):
@@ -695,10 +699,38 @@ def run(plan):
                                 viol("op_raised", f"{tag}: from_file in a fresh interpreter raised "
                                      f"{o['error']}", "op_raised:from_file:other_interpreter")
                             else:
-                                dd = _summary_diff(s0, o["loaded"], rtol=0.0) or [
-                                    # two processes differ by float round-off (3e-6 seen with the
-                                    # poisson loss): behavioural dependence on the session is O(1e-2)
-                                    "continued:" + x for x in _summary_diff(s1, o["continued"], rtol=1e-4)]
+                                dd = _summary_diff(s0, o["loaded"], rtol=0.0)
+                                if not dd:
+                                    dd = ["continued:" + x for x in _summary_diff(
+                                        s1, o["continued"], rtol=1e-4)]
+                                    if dd:
+                                        # is this configuration simply sensitive to round-off?  Two
+                                        # more loads in THIS process, perturbed by +-2 ulp, continued
+                                        # the same way: the other session must not deviate by much more
+                                        # than they do (AdamW on a TV-regularised uniform object turns
+                                        # 1e-9 into 2e-3 within two iterations)
+                                        worst = {}
+                                        for e_ in (2.0 ** -22, -(2.0 ** -22)):
+                                            tw, exc2, _ = E.call(lambda: P.from_file(pth))
+                                            if exc2 is not None:
+                                                continue
+                                            _perturb(tw, e_)
+                                            tw.reconstruct(**_continue_kw(cfg))
+                                            st = _summary(tw)
+                                            for k_ in ("iter_losses", "val_losses", "obj", "probe"):
+                                                worst[k_] = max(worst.get(k_, 0.0), _rel(
+                                                    np.asarray(st[k_], float), np.asarray(s1[k_], float)))
+                                            del tw
+                                        real = []
+                                        for x in dd:
+                                            k_ = x.split(":")[1].split(" ")[0]
+                                            dev = float(x.split("rel.dev ")[1].rstrip(")")) if "rel.dev" in x \
+                                                else float("inf")
+                                            if dev > NOISE_FACTOR * worst.get(k_, 0.0) + 1e-4:
+                                                real.append(f"{x} [perturbed twins drift {worst.get(k_, 0.0):.2g}]")
+                                        if not real:
+                                            bump(res["obs"], "fp_sensitive_configuration_other_interpreter")
+                                        dd = real
                                 if dd:
                                     viol("reload_depends_on_interpreter_session",
                                          f"{tag}: the same file loaded (and continued for 2 iterations) "
